@@ -38,7 +38,7 @@ def strategy(names):
             n = len(pre) + len(ins)
             qual = ''.join(chr(33 + q) for q in draw(st.lists(st.integers(0, 51), min_size=n, max_size=n)))
             reads.append({'pre': pre, 'ins': ins, 'qual': qual})
-        return {'strategy': name, 'exact_prefix': draw(st.sampled_from([None, None, None, None, 0, 1, 'both'])), 'bc_idx': draw(st.integers(0, 10 ** 6)), 'mismatch': draw(st.sampled_from([None, None, None, 0, 3, 7])),
+        return {'tx': name == 'DamAndT' and draw(st.integers(0, 2)) == 0, 'strategy': name, 'exact_prefix': draw(st.sampled_from([None, None, None, None, 0, 1, 'both'])), 'bc_idx': draw(st.integers(0, 10 ** 6)), 'mismatch': draw(st.sampled_from([None, None, None, 0, 3, 7])),
                 'hd': draw(st.sampled_from([0, 0, 1])), 'reads': reads, 'motif': motif, 'motif_pos': draw(st.integers(0, 40)),
                 'perturb': draw(st.lists(st.tuples(st.integers(0, 1), st.integers(0, 120), st.sampled_from('ACGT'), st.integers(0, 51)), min_size=3, max_size=3)),
                 'serial': draw(st.integers(1, 99999)), 'index': draw(st.integers(0, 10 ** 6))}
@@ -53,6 +53,9 @@ def materialise(case, scratch=None):
     if s is None:
         return None, 'strategy not registered'
     pl = ds.placement(s)
+    if case.get('tx') and case['strategy'] == 'DamAndT':
+        # the transcriptome branch of this strategy: a CEL-Seq2 read (6 bp UMI, 8 bp barcode of the celseq2 whitelist)
+        pl = dict(pl, parts=[(0, 6, 8, 'celseq2', 0)])
     seqs = []
     for r in case['reads']:
         seqs.append(list(r['pre'] + r['ins']))
@@ -193,6 +196,18 @@ def eval_case(case):
                 out.bad('%s:qualities-not-aligned-with-bases' % name, 'mate %d' % (m + 1))
             else:
                 out.bad('%s:emitted-not-a-contiguous-stretch' % name, 'mate %d emitted %r from %r' % (m + 1, sn['seq'][:40], rec.sequence[:60]))
+    # ---------------- (1a) DamAndT, transcriptome branch: the documented CEL-Seq2 layout (6 bp UMI, 8 bp barcode, insert from 14,
+    # leading poly-T pruned from R1)
+    if name == 'DamAndT' and snap[0]['tags'].get('dt') == 'RNA' and not out.violations:
+        r1 = records[0]
+        for sn in snap:
+            if sn['tags'].get('RX') != r1.sequence[0:6] or sn['tags'].get('bc') != r1.sequence[6:14]:
+                out.bad('DamAndT:RNA-branch:tag-RX-or-bc', 'RX %r bc %r, read starts %r' % (sn['tags'].get('RX'), sn['tags'].get('bc'), r1.sequence[:16]))
+                break
+        ins = r1.sequence[14:]
+        want = ins.lstrip('T') if ins.lstrip('T') else ins[-1:]
+        if snap[0]['seq'] != want and len(ins) > 0:
+            out.bad('DamAndT:RNA-branch:insert', 'emitted R1 %r..., expected the insert from position 14 without its leading T run %r...' % (snap[0]['seq'][:20], want[:20]))
     # ---------------- (1) layout table
     if lay and not out.violations:
         t0 = snap[0]['tags']
